@@ -52,6 +52,12 @@ CLAIMED["C02"] = dict(
     technique="CBMC function contracts (dfcc) on directly included C under each configuration, and on extracted C for the C++ inclusion; SAT, full input domains",
     ref="6/C02")
 
+CLAIMED["C17"] = dict(
+    text="Proof for the clauses listed: floor/ceil/trunc (float and double argument, result representable) are the mathematical functions, abs/sign/cmp/cmpt/iszero/equal/clamp follow their definitions, lerp hits both endpoints and ulerp its first, lerpfactor returns 0 or n/d and never a non-finite value (thorough tier), finitef/finited equal !(inf||nan) for all bit patterns, succ/pred forward finite values to nextafter in the right direction and return inf/NaN unchanged, rgb2packed(packed2rgb(p)) preserves every channel for Color4<float>/Vec3<float> for all 2^32 p. divs/mods/divp/modp: bounded proof on |x|,|y|<1024 (labelled bounded, not counted) plus a full-width 60 s refutation search - which found the divp overflow now fixed in /repo (8307dd1).",
+    note="Trusted: clang AST + cxx2c, cbmc, cvc5, minisat. nextafter is libm (uninterpreted). Integer division at full 32-bit width cannot be proved by the installed back ends (bounded stand-in). Not covered: roots, hsv conversions, equalWith* against |x1-x2|, lerpfactor inverse.",
+    technique="CBMC function contracts (dfcc) on extracted C; cvc5 (IEEE) / SAT (bits); bounded stand-in for 32-bit division",
+    ref="6/C17")
+
 NA = {
 }
 
